@@ -21,5 +21,8 @@ find "$VR" -name Cargo.toml -o -name config.toml | xargs sed -i -e "s#/repo/#$WT
 rc_all=0
 for p in "$@"; do
   echo "=== mutant $(basename "$(dirname "$patch")")/$(basename "$patch") vs $p"
-  VERIF_ROOT="$VR" "$VR/check" "$p" --tier "${TIER:-quick}" 2>&1 | cut -c1-600 | grep -E "SUMMARY|VIOLATION|KNOWN-FINDING|MACHINERY|INFO" | head -${LINES_MAX:-12}
+  VERIF_ROOT="$VR" "$VR/check" "$p" --tier "${TIER:-quick}" > "$VR/last_run.log" 2>&1
+  grep -E "^SUMMARY|MACHINERY" "$VR/last_run.log" | cut -c1-400
+  grep -E "^VIOLATION" "$VR/last_run.log" | cut -c1-600 | head -${LINES_MAX:-12}
+  echo "(known-finding lines: $(grep -c '^KNOWN-FINDING' "$VR/last_run.log"); listed findings that did not reproduce: $(grep -c '^INFO: listed finding' "$VR/last_run.log"))"
 done
